@@ -239,12 +239,9 @@ func (h *hist) opMarshal(t *rapid.T) {
 	case got.panic != nil && want.panic == nil:
 		sig, detail = rep.PanicSig(opNames[op], got.panic, got.stack), fmt.Sprintf("%v (marshaling a fresh copy does not panic)", got.panic)
 	case got.panic != nil:
-		// the fresh copy panics too: a pure function of the contents (Size/Marshal disagreement, C04 - not a
-		// simulation target); counted, not judged here
-		h.w.Probe("marshal_panics_on_fresh_copy_too(C04-class, unjudged)")
-		h.w.Note("unjudged: %s panics for these contents on a fresh copy as well: %v", opNames[op], got.panic)
+		// the fresh copy panics too, so no history is needed for it - but "never panics" is part of the property
+		sig, detail = rep.PanicSig(opNames[op]+"(fresh copy too)", got.panic, got.stack), fmt.Sprintf("%v for contents %.300s (a fresh copy panics as well)", got.panic, corpus.Digest(fresh))
 		h.m = h.typ.New()
-		return
 	case want.panic != nil:
 		sig, detail = rep.PanicSig(opNames[op]+"(fresh copy only)", want.panic, want.stack), fmt.Sprintf("the fresh copy panics (%v) but the history object does not", want.panic)
 	case (got.err == nil) != (want.err == nil):
@@ -260,6 +257,9 @@ func (h *hist) opMarshal(t *rapid.T) {
 		}
 		h.w.Violate(sig, fmt.Sprintf("%s: %s", h.typ, detail))
 		h.m = fresh // retire the object, continue on a fresh copy of its contents
+		if got.panic != nil && want.panic != nil {
+			h.m = h.typ.New() // these contents cannot be marshaled at all
+		}
 		return
 	}
 	if got.err == nil && got.b != nil {
@@ -427,6 +427,13 @@ func runCoop(t *rapid.T, w *rep.Worker, maxClients int) {
 		w.MixS(fmt.Sprint(c.script) + c.byTyp.String() + corpus.Digest(c.by))
 	}
 	// expected results from fresh copies, computed before anybody shares the message
+	presize = 0
+	func() {
+		defer func() { _ = recover() }()
+		if f2, ok := corpus.FreshCopy(m).(corpus.FM); ok {
+			presize = f2.Size() // what a caller that knows the size passes to MarshalTo (opGenMarshalToPresized)
+		}
+	}()
 	var want [nMarshalOps]result
 	for op := 0; op < nMarshalOps; op++ {
 		want[op] = doMarshal(op, corpus.FreshCopy(m))
@@ -525,10 +532,7 @@ func runCoop(t *rapid.T, w *rep.Worker, maxClients int) {
 		for _, o := range c.obs {
 			judged++
 			if o.res.panic != nil {
-				if o.op < nMarshalOps && want[o.op].panic != nil {
-					w.Probe("marshal_panics_on_fresh_copy_too(C04-class, unjudged)")
-					continue
-				}
+				// (a fresh copy panicking as well changes nothing: "never panics" is part of the property)
 				w.Step("client %d %s panicked", ci, names[o.op])
 				w.Violate(rep.PanicSig(names[o.op], o.res.panic, o.res.stack), fmt.Sprint(o.res.panic))
 				continue
